@@ -738,11 +738,15 @@ func TestC34_Exhaustive(t *testing.T) {
 		{"KStr", [][]model.Val{{str("a")}, {str("b")}, {str("c")}}},
 		{"Mk2", [][]model.Val{{str("a"), u32(1)}, {str("a"), u32(2)}, {str("b"), u32(1)}}},
 	}
-	const maxLen = 4
 	alpha := c34Alphabet()
 	shard, shards := ev.Shard(), ev.Shards()
 	var total int64
-	for _, tg := range targets {
+	for ti, tg := range targets {
+		// bound: length <= 4; in the quick tier the second list stops at length 3 (quick budget)
+		maxLen := 4
+		if ti > 0 {
+			maxLen = ev.Scale(3, 4)
+		}
 		var site *listSite
 		for _, s := range c34Sites() {
 			if s.v.Name == "vtu" && s.owner.T.Name() == "Vt_Top_Keyed" && s.f.Name == tg.list {
@@ -790,5 +794,5 @@ func TestC34_Exhaustive(t *testing.T) {
 	}
 	rec.Exhaustive()
 	rec.Add("exhaustive_sequences", total)
-	rec.Set("exhaustive_bound", fmt.Sprintf("all sequences of length 1..%d over %d operations (New/GetOrCreate/Append/Delete x 3 keys, Append with unset key, Rename x 9 key pairs; Get evaluated as part of every step's comparison) on vtu /top/keyed/k-str and /top/keyed/mk2", maxLen, len(alpha)))
+	rec.Set("exhaustive_bound", fmt.Sprintf("all sequences of length 1..%d over %d operations (New/GetOrCreate/Append/Delete x 3 keys, Append with unset key, Rename x 9 key pairs; Get of all 3 keys after every sequence) on vtu /top/keyed/k-str, and up to length %d on /top/keyed/mk2", 4, len(alpha), ev.Scale(3, 4)))
 }
